@@ -420,6 +420,20 @@ def body(ctx: H.BaseCtx):
             r = p * p2
             ctx.expect_model(r, M.amap(lambda x, y: x * y, mp, ctx.model(spec2)), "product")
             check_invariants(ctx, r, "product")
+        elif op == "mul-out":
+            # explicit output polynomial that holds the product's terms among others, in its own order (zero-initialised)
+            p2 = ctx.build(spec2)
+            want = M.amap(lambda x, y: x * y, mp, ctx.model(spec2))
+            prod_exps = sorted({tuple(a + b for a, b in zip(e1, e2)) for e1 in spec["exps"] for e2 in spec2["exps"]})
+            extra = [tuple([0] * len(names)), tuple([1] + [0] * (len(names) - 1))]
+            rows = [list(e) for e in dict.fromkeys(list(reversed(prod_exps)) + extra)]
+            out = numpoly.ndpoly(exponents=rows, shape=(), names=tuple(names), dtype=p.dtype)
+            for key in out.keys:
+                out.values[key] = 0
+            r = numpoly.multiply(p, p2, out=out)
+            ctx.expect_model(out, want, "multiply(..., out=) (the output polynomial)")
+            if r is not None:
+                ctx.expect_model(r, want, "multiply(..., out=) (the returned value)")
         elif op == "pow":
             r = p ** case["k"]
             ctx.expect_model(r, M.amap(lambda x: x ** case["k"], mp), "power")
@@ -583,6 +597,10 @@ def gen_cases(tier: str, seed: int) -> List[Dict]:
         add("mul", P("a", ("q0",), [[a], [0]]), P("b", ("q0",), [[b], [1]]))
     for a, b in pairs[: (10 if quick else 40)]:
         add("mul", P("a", ("q0", "q1"), [[a, 1], [0, b]]), P("b", ("q0", "q1"), [[b, 0], [1, a]]))
+    for a, b in pairs[: (12 if quick else 60)]:
+        # (raw operands: a cleaned all-zero operand would drop names, and an output polynomial over other names is a caller's error)
+        add("mul-out", dict(P("a", ("q0",), [[a], [0]]), mode="raw"), dict(P("b", ("q0",), [[b], [1]]), mode="raw"))
+        add("mul-out", dict(P("a", ("q0", "q1"), [[a, 1], [0, 2]]), mode="raw"), dict(P("b", ("q0", "q1"), [[b, 0]]), mode="raw"))
     for e in lad:
         add("raw-view", P("a", ("q0", "q1"), [[e, 0], [1, e], [0, 0]], rng.choice([(), (2,)])))
         add("pickle", P("a", ("q0", "q2"), [[e, 1], [0, e]]))
